@@ -38,9 +38,11 @@ def _run_variant(args) -> Dict[str, Any]:
     var, repo, root = args
     from .__main__ import analyse
     vid = var["id"]
-    dst = os.path.join(root, vid.replace("/", "_"))
+    dst = os.path.join(root, vid.replace("/", "_") + "__" + var["prop"])
     res: Dict[str, Any] = {"id": vid, "kind": var.get("kind", "mutant"), "prop": var["prop"], "expect": var.get("expect")}
     try:
+        if "patch" in var:
+            return _run_patch_variant(var, repo, dst, res)
         path = os.path.join(repo, "stackscope", var["file"])
         src = open(path, encoding="utf-8").read()
         if src.count(var["old"]) != 1:
@@ -87,6 +89,34 @@ def _run_variant(args) -> Dict[str, Any]:
         shutil.rmtree(dst, ignore_errors=True)
 
 
+def _run_patch_variant(var, repo, dst, res):
+    """a variant given as a unified diff (independently written behaviour-preserving edits, seeded changes)"""
+    import subprocess
+    from .__main__ import analyse
+    _copy_pkg(repo, dst)
+    r = subprocess.run(["patch", "-p1", "-s", "-f", "-d", dst, "-i", var["patch"]], capture_output=True, text=True)
+    if r.returncode != 0:
+        res["status"] = "skipped"
+        res["why"] = "patch does not apply to the tree under test"
+        return res
+    known = load_known()
+    try:
+        R, _ = analyse(var["prop"], "quick", dst)
+        res["fired"] = sorted({f.rule for f in R.findings if not match_known(var["prop"], f, known)})
+        res["analysis_error"] = "; ".join(R.errors)[:300] or None
+    except AnalysisError as ex:
+        res["fired"] = []
+        res["analysis_error"] = str(ex)[:300]
+    if res["kind"] == "twin":
+        # an independently written behaviour-preserving edit: a VIOLATION would be a false alarm;
+        # "cannot decide" (exit 2) is tolerated and recorded
+        res["status"] = "twin-alarmed" if res["fired"] else "ok"
+    else:
+        exps = var["expect"] if isinstance(var["expect"], list) else [var["expect"]]
+        res["status"] = "ok" if any(e in res["fired"] for e in exps) else "undetected"
+    return res
+
+
 def run_selftest(prop: Optional[str], repo: str, verbose: bool = False) -> Dict[str, Any]:
     from .variants import VARIANTS
     t0 = time.time()
@@ -102,6 +132,7 @@ def run_selftest(prop: Optional[str], repo: str, verbose: bool = False) -> Dict[
         "mutants_detected": sum(1 for r in results if r["kind"] != "twin" and r["status"] == "ok"),
         "twins_silent": sum(1 for r in results if r["kind"] == "twin" and r["status"] == "ok"),
         "skipped": [r["id"] for r in results if r["status"] == "skipped"],
+        "twins_undecided": [r["id"] for r in results if r["kind"] == "twin" and r["status"] == "ok" and r.get("analysis_error")],
         "undetected": [r["id"] for r in results if r["status"] in ("undetected", "broken-variant")],
         "twins_alarmed": [r["id"] for r in results if r["status"] == "twin-alarmed"],
         "wall_s": round(time.time() - t0, 2),
